@@ -318,6 +318,17 @@ def r_once(e, R):
                         ok = True
         R.check(ok, "R-ONCE", f"{f.short}: dispatch only if set_running_or_notify_cancel() returned True", f.short, norm(c)[:60],
                 "a cancelled future's task can be dispatched (cancel() returned True but the body runs)", e.loc(f, c))
+        # a cancelled item is removed from the pending table (otherwise the table never empties and the manager never exits)
+        for t in g.nodes:
+            if t.kind == "test" and any(isinstance(x.func, ast.Attribute) and x.func.attr == "set_running_or_notify_cancel" for x in calls_in(t)):
+                rem = [m for m in g.nodes if m.kind == "stmt" and ((isinstance(m.ast, ast.Delete) and any(
+                    isinstance(tt, ast.Subscript) and e.objs(f, tt.value) & a.pending for tt in m.ast.targets)) or any(
+                    e.receiver_objs(f, x, ("pop",)) & a.pending for x in calls_in(m))) and g.on_branch(m, t, "F")]
+                gets_ = {y for x in func_nodes(f) if isinstance(x, ast.Call) and e.receiver_objs(f, x, ("get", "get_nowait")) & a.work_ids for y in cfg_nodes(e, f, x)}
+                esc = g.find_path(t, lambda m: m is g.exit or m in gets_, avoid=rem, use_exc=False, start_labels=["F"])
+                R.check(bool(rem) and esc is None, "R-ONCE", f"{f.short}: a cancelled item is removed from the pending table", f.short,
+                        "del pending[work_id] on the cancelled branch", "a cancelled work item stays in the pending table forever: the table never "
+                        "empties, so shutdown(wait=True) and interpreter exit hang waiting for the manager", e.loc(f, t.ast))
         # the id comes from a consuming get
         gets = [x for x in func_nodes(f) if isinstance(x, ast.Call) and e.receiver_objs(f, x, ("get", "get_nowait")) & a.work_ids]
         R.check(bool(gets) and all(any(g.dominates(gn, n) for x in gets for gn in cfg_nodes(e, f, x)) for n in cfg_nodes(e, f, c)),
